@@ -308,10 +308,11 @@ Proof.
   - destruct (resolve_mono _ _ _ Ls _ _ _ La R) as (I1 & s0 & s' & I0 & (_ & Lr & _) & R').
     rewrite R'. intros H. eapply builtin_call_mono; [|exact H].
     rewrite (Coh s s0 I1 I0). exact Lr.
-  - intros H. inv_pair H.
+  - intros H. injection H as Ht Hd. apply app_eq_nil in Hd. destruct Hd as [Ha He]. subst t errs.
     (* no candidate and no error: the overload list is empty on both sides *)
-    destruct Ls as [|s1 s1' sigs sigs' Hs Ls]; [cbn; done_with I|].
-    cbn in R. destruct (check_sig p s1 tys); [|discriminate]. destruct (resolve p sigs tys); discriminate.
+    destruct Ls as [|s1 s1' sigs sigs' Hs Ls].
+    + cbn [resolve]. rewrite <- (el_spavail _ _ EL), <- (el_special _ _ EL), Ha. cbn. done_with I.
+    + cbn in R. destruct (check_sig p s1 tys); [|discriminate]. destruct (resolve p sigs tys); discriminate.
 Qed.
 End Mono.
 
@@ -565,7 +566,8 @@ Qed.
 Lemma call_node_clean p c args sigs tys : Forall clean (snd (call_node mg E p c args sigs tys)).
 Proof.
   unfold call_node. destruct (resolve p sigs tys) eqn:R; [apply builtin_call_clean|].
-  cbn. eapply resolve_clean; eauto.
+  cbn [snd]. apply Forall_app. split; [|eapply resolve_clean; eauto].
+  destruct (_ && _); repeat constructor. unfold clean; cbn; tauto.
 Qed.
 
 Lemma chk_clean e : forall nw, Forall clean (snd (chk mg fa E nw e)).
